@@ -57,6 +57,44 @@ Proof.
   - exact (get_object_find _ _ _ Eo).
 Qed.
 
+(* the library's own resolution path for a variable-length string element (readVariableString, dataset_reader_compound.go:262 =
+   Model/IOProgReader.v api_vlen_string), run on element i of the raw data, returns elems[i] *)
+Theorem elements_vlen_string gfuel : (N.to_nat (blen f / 16) + 2 <= gfuel)%nat ->
+  forall i d, nth_error elems i = Some d ->
+  run0 f (api_vlen_string SB' gfuel (rd (v_refs elems) (16 * N.of_nat i) 16)) = Ok d.
+Proof.
+  intros Hg i d Hi. destruct run_total as (fin & ids & Hrun).
+  pose proof (eof_W64 name base dims elems fin ids Hname Hdims Hcount Hrun Hsmall) as Hw.
+  destruct (Proofs.GHeap.C12_roundtrip_lemma 4096 4096 _ _ fin ids Proofs.GHeap.params_shipped
+              (Hrun' elems fin ids Hrun) Hw) as [_ Hres].
+  rewrite writes_map_W in Hres. destruct (Hres i d Hi) as (id & Hid & Hr).
+  assert (Hrd : rd (v_refs elems) (16 * N.of_nat i) 16 = encode_reference id).
+  { unfold v_refs. rewrite (ids_eq elems fin ids Hrun). exact (refs_nth ids i id Hid). }
+  rewrite Hrd. set (ref := encode_reference id) in *.
+  assert (L : blen ref = 16) by apply enc_ref_len.
+  unfold resolve, parse_reference in Hr. rewrite gblen, L in Hr. change (16 <? 12) with false in Hr. cbv iota in Hr.
+  cbn [h_addr h_idx] in Hr.
+  destruct (read_collection (disk fin) (unle (GHeap.slice ref 0 8))) as [rc|] eqn:Ec; [|discriminate].
+  destruct (get_object (r_objs rc) (unle (GHeap.slice ref 8 4))) as [o|] eqn:Eo; [|discriminate].
+  injection Hr as Hd.
+  unfold api_vlen_string. cbn [SB' spp_offsize]. change (negb ((8 =? 4) || (8 =? 8))) with false. cbv iota.
+  rewrite L. change (16 <? 8 + 4) with false. cbv iota.
+  unfold rd_le, Bytes.slice. rewrite L.
+  change ((0 <=? 0 + 8) && (0 + 8 <=? 16)) with true. change ((8 <=? 8 + 4) && (8 + 4 <=? 16)) with true. cbv iota.
+  cbn [obind lift bind fst snd].
+  change (firstn (N.to_nat (0 + 8 - 0)) (skipn (N.to_nat 0) ref)) with (GHeap.slice ref 0 8).
+  change (firstn (N.to_nat (8 + 4 - 8)) (skipn (N.to_nat 8) ref)) with (GHeap.slice ref 8 4).
+  assert (Hpos : v_e0 elems <= unle (GHeap.slice ref 0 8)).
+  { apply (read_collection_ge (disk fin) _ rc); [|exact Ec]. intros a0 b Hin.
+    apply (chain_ge _ _ _ a0 b (heap_chain elems fin ids Hrun)). now apply in_rev in Hin. }
+  replace (unle (GHeap.slice ref 0 8) =? 0) with false
+    by (symmetry; apply N.eqb_neq; unfold v_e0 in Hpos; change DATA_ADDR with 2195 in Hpos; blia).
+  rewrite run0_bind.
+  rewrite (p_gheap_read_collection f (disk fin)
+             (colls_placed name base dims elems fin ids Hname Hdims Hcount Hrun) SB' eq_refl ltac:(unfold MAXI64; blia) _ rc gfuel Ec Hg).
+  rewrite (get_object_find _ _ _ Eo). cbn [snd]. rewrite Hd. reflexivity.
+Qed.
+
 Theorem file_roundtrip_vlen fuel hfuel gfuel : (3 <= fuel)%nat -> (3 < hfuel)%nat -> (N.to_nat (blen f / 16) + 2 <= gfuel)%nat ->
   let da := v_dset_addr elems in let refs := v_refs elems in
   run0 f (p_open true (blen f) fuel hfuel) = Ok (Grp [47] ROOT_ADDR [Dset name da]) /\
